@@ -216,7 +216,8 @@ def copy_strategy(tier):
     return st.fixed_dictionaries({"target": st.sampled_from(ABSENT_KINDS + ["absent"] + TARGETS[1:]), "path": st.sampled_from(PATH_KINDS),
                                   "inside_context": st.sampled_from([False, False, True]),
                                   "seed": st.integers(0, 10 ** 6), "source": container.init_images(), "followup": st.lists(op, max_size=5),
-                                  "source_via_library": st.booleans()})
+                                  "source_via_library": st.booleans(),
+                                  "source_path": st.sampled_from(["direct", "direct", "symlink-abs", "symlink-rel", "symlink-chain", "hardlink"])})
 
 
 def run_copy(ctx, case):
@@ -235,7 +236,24 @@ def run_copy(ctx, case):
             src_path = it.path
             src_bytes = open(src_path, "rb").read()
             p, before = make_target(d, case["target"], case["seed"])
-            src = Tdf(src_path)
+            how_src = case.get("source_path", "direct")
+            if how_src != "direct":
+                # the source object is opened through another name of the same file; the copy must still be a regular, independent file
+                sdir = os.path.dirname(src_path)
+                link = os.path.join(sdir, "latest.tdf")
+                if how_src == "symlink-abs":
+                    os.symlink(src_path, link)
+                elif how_src == "symlink-rel":
+                    os.symlink(os.path.basename(src_path), link)
+                elif how_src == "symlink-chain":
+                    os.symlink(os.path.basename(src_path), os.path.join(sdir, "mid.tdf"))
+                    os.symlink(os.path.join(sdir, "mid.tdf"), link)
+                else:
+                    os.link(src_path, link)
+                src = Tdf(link)
+                ctx.label("source:" + how_src)
+            else:
+                src = Tdf(src_path)
             snap = snapshot(d)
             if case.get("inside_context") and case["target"] in ABSENT_KINDS:
                 # copy taken while a write context is open, right after a mutation: the copy must contain it
@@ -284,6 +302,8 @@ def run_copy(ctx, case):
             if open(p, "rb").read() != src_bytes:
                 ctx.fail("copy/not-identical" + ("-inside-write-context" if case.get("inside_context") else ""),
                          "the copy is not byte-identical to the original" + (" (copy taken inside an open write context right after add_block)" if case.get("inside_context") else ""))
+            if os.path.islink(p):
+                ctx.fail("copy/target-is-a-link", f"the copy (source opened through {how_src}) is a symbolic link to {os.readlink(p)!r}, not a file of its own")
             if os.path.samefile(p, src_path):
                 ctx.fail("copy/same-file", "copy and original are the same file (same inode)")
             if os.path.realpath(os.path.join(os.getcwd(), str(cp.file_path))) != os.path.realpath(p):
@@ -332,7 +352,8 @@ def invalid_strategy(tier):
     return st.fixed_dictionaries({
         "kind": st.sampled_from(["missing", "empty", "short-random", "random", "partial-signature", "signature-flipped-bit", "text", "zeros",
                                  "signature-at-offset", "signature-reversed"]),
-        "seed": st.integers(0, 10 ** 6), "n": st.integers(1, 15), "path": st.sampled_from(PATH_KINDS)})
+        "seed": st.integers(0, 10 ** 6), "n": st.integers(1, 15), "path": st.sampled_from(PATH_KINDS),
+        "preopen": st.sampled_from(["never", "never", "reader", "context", "write-context", "two-readers"])})
 
 
 def run_invalid(ctx, case):
@@ -374,7 +395,30 @@ def run_invalid(ctx, case):
             with open(p, "wb") as f:
                 f.write(data)
         arg = as_path(p, case["path"])
-        if data is None:
+        if data is None and case.get("preopen", "never") != "never":
+            # the file existed and was read through the object, then disappears: every later read through the same object must refuse
+            with open(p, "wb") as f:
+                f.write(valid)
+            for name in ("blocks", "has_events", "with"):
+                t = Tdf(arg)
+                t.blocks
+                os.unlink(p)
+                try:
+                    r = t.__enter__() if name == "with" else getattr(t, name)
+                except Exception:  # noqa
+                    r = None
+                else:
+                    ctx.fail(f"open/missing-after-use/{name}-yields-data", f"reader {name} through an object whose file was deleted returned {str(r)[:60]!r} instead of raising")
+                finally:
+                    h = getattr(t, "handler", None)
+                    if h is not None and not h.closed:
+                        h.close()
+                if os.path.exists(p):
+                    ctx.fail("open/missing-path-created", "reading through an object whose file was deleted re-created the file")
+                with open(p, "wb") as f:
+                    f.write(valid)
+            os.unlink(p)
+        elif data is None:
             try:
                 Tdf(arg)
                 ctx.fail("open/missing-path-accepted", "Tdf(path) on a path that does not exist did not raise")
@@ -386,11 +430,30 @@ def run_invalid(ctx, case):
             readers = {"with": lambda t: t.__enter__(), "blocks": lambda t: t.blocks, "get_block": lambda t: t.get_block(0),
                        "events": lambda t: t.events, "has_events": lambda t: t.has_events, "repr": lambda t: repr(t),
                        "get_block-type": lambda t: t.get_block(BlockType.data3D)}
+            pre = case.get("preopen", "never")
             for name, fn in readers.items():
-                try:
+                if pre != "never":
+                    # the object has already opened a valid file at this path (successfully) before the file is replaced by the invalid one
+                    with open(p, "wb") as f:
+                        f.write(valid)
                     t = Tdf(arg)
-                except Exception:  # noqa - refusing at construction is fine too
-                    continue
+                    if pre == "reader":
+                        t.blocks
+                    elif pre == "two-readers":
+                        t.has_events, len(t)
+                    elif pre == "context":
+                        with t:
+                            pass
+                    else:
+                        with t.allow_write():
+                            pass
+                    with open(p, "wb") as f:
+                        f.write(data)
+                else:
+                    try:
+                        t = Tdf(arg)
+                    except Exception:  # noqa - refusing at construction is fine too
+                        continue
                 try:
                     r = fn(t)
                 except Exception:  # noqa
@@ -399,13 +462,15 @@ def run_invalid(ctx, case):
                     h = getattr(t, "handler", None)
                     if h is not None and not h.closed:
                         h.close()
-                ctx.fail(f"open/{kind}/{name}-yields-data", f"reader {name} on a file without the TDF signature ({kind}) returned {str(r)[:60]!r} instead of raising")
+                ctx.fail(f"open/{kind}/{name}-yields-data" + ("" if pre == "never" else "-after-valid-use"),
+                         f"reader {name} on a file without the TDF signature ({kind}{'' if pre == 'never' else '; the same object had read a valid file at this path before: ' + pre}) "
+                         f"returned {str(r)[:60]!r} instead of raising")
             if open(p, "rb").read() != data:
                 ctx.fail(f"open/{kind}/file-changed", "reading an invalid file changed it")
     finally:
         os.chdir(cwd0)
         env.rmdir(d)
-    ctx.case(case, True, labels=["invalid:" + case["kind"]])
+    ctx.case(case, True, labels=["invalid:" + case["kind"], "preopen:" + case.get("preopen", "never")])
 
 
 SUBS = [
@@ -414,5 +479,6 @@ SUBS = [
     Sub("copy", run_copy, strategy=copy_strategy, budget=(200, 5000), shards=(4, 16),
         rule="Tdf.copy of generated sources against every target state; byte identity; independence under follow-up mutations of either file"),
     Sub("invalid-input", run_invalid, strategy=invalid_strategy, budget=(200, 4000), shards=(1, 8),
-        rule="missing path, empty / short / random / partial-signature / bit-flipped-signature files: every reader must refuse"),
+        rule="missing path, empty / short / random / partial-signature / bit-flipped-signature files: every reader must refuse - through a fresh object, and through an "
+             "object that had already read a valid file at the same path before it was replaced or deleted"),
 ]
